@@ -255,9 +255,19 @@ class Harness:
 
     def missing_bucket(self, name):
         bad = []
-        for what, f, exc in (("lookup", lambda: self.ds[name], KeyError),
-                             ("update", lambda: self.ds.update_bucket(name, client="x"), ValueError),
-                             ("delete", lambda: self.ds.delete_bucket(name), ValueError)):
+        probes = [("lookup", lambda: self.ds[name], KeyError),
+                  ("update", lambda: self.ds.update_bucket(name, client="x"), ValueError),
+                  ("delete", lambda: self.ds.delete_bucket(name), ValueError)]
+        # in any order: each of them alone must change nothing (e.g. must not disturb writes that are still buffered)
+        k = sum(ord(c) for c in name) + len(self.idmap)
+        probes = probes[k % 3:] + probes[:k % 3]
+        # a write that is still buffered when the probes run (nothing is read in between): it must survive them
+        if self.ref.b:
+            bid0 = sorted(self.ref.b.keys())[0]
+            ev = [BASE + (k % 7) * MS, (k % 3) * MS, {"probe": k}]
+            r0 = self.ds[bid0].insert(self.mk_event(ev))
+            self.idmap[(bid0, self.ref.insert(bid0, ev))] = r0.id
+        for what, f, exc in probes:
             try:
                 f()
                 bad.append(f"{what} of missing bucket {name!r} did not raise")
